@@ -225,36 +225,36 @@ is the binding invariant that lifts them to whole conversions: along `Conv.run c
 object (on-demand creation, renames, FORKs, MMAP2 records and the records of every other thread leave the triple
 alone) — and the samples emitted for it are appended to the buffer of its process, tagged with its tid.
 
-Quantifier: default options (`reuse = false`) and histories without EXIT / EXEC records (`CsSpec.hasCut rs =
-false`) — exactly the histories on which `judgeCs` evaluates its per-thread clauses (2) Σ cpu deltas = running time
+Quantifier: every configuration (with `--reuse-threads` the recycled handles and names do not touch the triple)
+and histories without EXIT / EXEC records (`CsSpec.hasCut rs = false`) — the histories on which `judgeCs` evaluates
+(for default options) its per-thread clauses (2) Σ cpu deltas = running time
 and (3) Σ off-CPU weights + dropped = accounted units. (With EXIT / EXEC the triple is reset at the cut — also part
 of the observation lemmas, `obs_exit` / `obs_comm` — but a non-main thread's earlier incarnation leaves its samples
 in the same buffer under the same tid; the per-incarnation form of the statement is not proved.) -/
 
 /-- the samples `Conv.run cfg rs` holds for thread (pid, tid), the thread's context-switch data, and the thread run
 over the thread's own records -/
-theorem C12_conv_binding (cfg : Config) (rs : List Conv.Rec) (hr : cfg.reuse = false)
+theorem C12_conv_binding (cfg : Config) (rs : List Conv.Rec)
     (hcut : ConvSpec.CsSpec.hasCut rs = false) (pid tid : Nat) :
     (threadBuf (Conv.run cfg rs) pid tid).map esamp =
       (threadRun (Conv.St.init cfg) pid tid 0 (trecs cfg pid tid rs)).out.map esamp ∧
     threadCs (Conv.run cfg rs) pid tid = (threadRun (Conv.St.init cfg) pid tid 0 (trecs cfg pid tid rs)).th.cs ∧
     ((Conv.run cfg rs).bad = false → (threadRun (Conv.St.init cfg) pid tid 0 (trecs cfg pid tid rs)).safe = true) := by
-  have h := thread_of_run cfg rs hr hcut pid tid
+  have h := thread_of_run cfg rs hcut pid tid
   refine ⟨h.buf, ?_, h.safe⟩
   unfold threadCs
   rw [h.tq]; rfl
 
-/-- **CPU time, converter level.** For every configuration with default options, an off-CPU indicator and an
-interval > 0, every record history without EXIT / EXEC, and every thread (pid, tid) whose own records are
+/-- **CPU time, converter level.** For every configuration with an off-CPU indicator and an interval > 0, every record history without EXIT / EXEC, and every thread (pid, tid) whose own records are
 time-ordered: the cpu deltas of the samples `Conv.run cfg rs` buffered for the thread (on-CPU samples and first
 samples of off-CPU groups; rest samples carry 0) plus what is still pending in the thread's accumulator equal the
 running time of the thread's bare history. -/
-theorem C12_conv_cpu (cfg : Config) (rs : List Conv.Rec) (hr : cfg.reuse = false)
+theorem C12_conv_cpu (cfg : Config) (rs : List Conv.Rec)
     (hcut : ConvSpec.CsSpec.hasCut rs = false) (hi : 0 < cfg.interval) (hoc : cfg.offCpu.isSome = true)
     (pid tid : Nat) (ho : TOrdered cfg (none, H.init) (trecs cfg pid tid rs)) :
     cpuSum (threadBuf (Conv.run cfg rs) pid tid) + (threadCs (Conv.run cfg rs) pid tid).onAcc
       = (spec (timed cfg (trecs cfg pid tid rs))).running := by
-  obtain ⟨b1, b2, _⟩ := C12_conv_binding cfg rs hr hcut pid tid
+  obtain ⟨b1, b2, _⟩ := C12_conv_binding cfg rs hcut pid tid
   have h := (C12_thread_cpu (Conv.St.init cfg) hi hoc pid tid 0 (trecs cfg pid tid rs) ho).1
   rw [cpuSum_esamp b1, b2]
   exact h
@@ -265,7 +265,7 @@ theorem C12_conv_cpu (cfg : Config) (rs : List Conv.Rec) (hr : cfg.reuse = false
 than 2^31 samples): accounted units, the carried remainder (< interval) and the still open sleep add up to the
 sleeping time of the thread's bare history, and unless `sat` the weights of the off-CPU samples buffered for the
 thread by `Conv.run cfg rs` add up to `units · off_cpu_weight_per_sample`. -/
-theorem C12_conv_offcpu (cfg : Config) (rs : List Conv.Rec) (hr : cfg.reuse = false)
+theorem C12_conv_offcpu (cfg : Config) (rs : List Conv.Rec)
     (hcut : ConvSpec.CsSpec.hasCut rs = false) (hi : 0 < cfg.interval) (hoc : cfg.offCpu.isSome = true)
     (pid tid : Nat) (ho : TOrdered cfg (none, H.init) (trecs cfg pid tid rs)) :
     let r := threadRun (Conv.St.init cfg) pid tid 0 (trecs cfg pid tid rs)
@@ -277,7 +277,7 @@ theorem C12_conv_offcpu (cfg : Config) (rs : List Conv.Rec) (hr : cfg.reuse = fa
       = (spec (timed cfg (trecs cfg pid tid rs))).sleeping ∧
     (r.sat = false → offWeight (threadBuf (Conv.run cfg rs) pid tid) = r.units * cfg.offWeight) := by
   intro r
-  obtain ⟨b1, b2, _⟩ := C12_conv_binding cfg rs hr hcut pid tid
+  obtain ⟨b1, b2, _⟩ := C12_conv_binding cfg rs hcut pid tid
   have h := C12_thread_offcpu (Conv.St.init cfg) hi hoc pid tid 0 (trecs cfg pid tid rs) ho
   rw [offWeight_esamp b1, b2]
   exact h
@@ -320,7 +320,7 @@ def C12_runHistory : List Conv.Rec :=
 
 def C12_runCfg : Conv.Config := { offCpu := some .contextSwitches, interval := 10 }
 
-example : C12_runCfg.reuse = false ∧ ConvSpec.CsSpec.hasCut C12_runHistory = false ∧
+example : ConvSpec.CsSpec.hasCut C12_runHistory = false ∧
     TOrdered C12_runCfg (none, H.init) (trecs C12_runCfg 1 2 C12_runHistory) := by decide
 example : (threadBuf (Conv.run C12_runCfg C12_runHistory) 1 2).map (fun u => (u.t, u.cpu, u.synth)) = [(12, 10, false)] ∧
     (threadCs (Conv.run C12_runCfg C12_runHistory) 1 2).onAcc = 1 ∧
